@@ -74,7 +74,7 @@ func ParseDecimal(in string) (*Decimal, error) {
 		return nil, &ParseError{in, "empty string"}
 	}
 
-	exponent := int32(0)
+	exponent := int64(0)
 
 	d := strings.IndexAny(in, "Dd")
 	if d != -1 {
@@ -84,12 +84,12 @@ func ParseDecimal(in string) (*Decimal, error) {
 			return nil, &ParseError{in, "unexpected end of input after d"}
 		}
 
-		tmp, err := strconv.ParseInt(exp, 10, 32)
+		tmp, err := strconv.ParseInt(exp, 10, 64)
 		if err != nil {
 			return nil, &ParseError{in, err.Error()}
 		}
 
-		exponent = int32(tmp)
+		exponent = tmp
 		in = in[:d]
 	}
 
@@ -99,8 +99,14 @@ func ParseDecimal(in string) (*Decimal, error) {
 		ipart := in[:d]
 		fpart := in[d+1:]
 
-		exponent -= int32(len(fpart))
+		exponent -= int64(len(fpart))
 		in = ipart + fpart
+	}
+
+	// The exponent of the value is what has to fit, not the exponent as written:
+	// 1.5d-2147483648 is out of range, 6.5536d2147483651 is not.
+	if exponent > math.MaxInt32 || exponent < math.MinInt32 {
+		return nil, &ParseError{in, "exponent out of range"}
 	}
 
 	n, ok := new(big.Int).SetString(in, 10)
@@ -111,7 +117,7 @@ func ParseDecimal(in string) (*Decimal, error) {
 
 	isNegZero := n.Sign() == 0 && len(in) > 0 && in[0] == '-'
 
-	return NewDecimal(n, exponent, isNegZero), nil
+	return NewDecimal(n, int32(exponent), isNegZero), nil
 }
 
 // CoEx returns this decimal's coefficient and exponent.
